@@ -102,7 +102,7 @@ func TestC01(t *testing.T) {
 	if env.Shards <= 1 {
 		// complete one-edit neighbourhood of a fixed set of representative vectors
 		nb := oneEditCases()
-		Enum(h, "string", len(nb), func(i int) gen.Str { return nb[i] }, func(i int) bool { return checkGrammar(nb[i]) == nil }, checkGrammar)
+		Enum(h, "string", len(nb), func(i int) gen.Str { return nb[i] }, nil, checkGrammar)
 		if !h.replaying() {
 			valid := 0
 			for _, c := range nb {
@@ -216,7 +216,7 @@ func TestC13(t *testing.T) {
 	}
 	if env.Shards <= 1 {
 		nb := oneEditCases()
-		Enum(h, "string", len(nb), func(i int) gen.Str { return nb[i] }, func(i int) bool { return checkOneVersion(nb[i]) == nil }, checkOneVersion)
+		Enum(h, "string", len(nb), func(i int) gen.Str { return nb[i] }, nil, checkOneVersion)
 		if !h.replaying() {
 			for _, c := range nb {
 				key := ""
@@ -399,7 +399,7 @@ func TestC06(t *testing.T) {
 	}
 	if env.Shards <= 1 {
 		pv := pairVectors()
-		Enum(h, "valid", len(pv), func(i int) gen.Valid { return pv[i] }, func(i int) bool { return checkMeaning(pv[i]) == nil }, checkMeaning)
+		Enum(h, "valid", len(pv), func(i int) gen.Valid { return pv[i] }, nil, checkMeaning)
 		if !h.replaying() {
 			h.R.AddExact(int64(len(pv)), int64(len(pv)))
 			h.R.Count("exhaustive: every ordered pair of metrics x every pair of values, written first (v3) / in place (v2, v4)", int64(len(pv)))
